@@ -55,6 +55,8 @@ SPEC = {
             [ob('harness_filter_match', bounds='TestFilter::match: filter any 0..3 bytes, name any 0..4 bytes, strict/invert symbolic')] +
             [ob('harness_flag_%d' % k, bounds='whole parser, argv = {%s}; ' % FLAGS[k] + PROBE) for k in range(13)] +
             [ob('harness_e2e_%d' % k, bounds='whole parser, option %s with the value "%s", attached or separated, alone or with -v before or after it; ' % (KNAME[k], E2EVAL[k]) + PROBE + ('; [KF_C12_1]' if k in (12, 13) else '')) for k in range(18)] +
+            [ob('harness_e2e_reject_%d_%d' % (bd, k), unwind=24, tier=('both' if (bd in (0, 1, 4) and k in (1, 2, 10, 16)) else 'thorough'),
+                bounds='whole parser with the real handlers, argv = {"%s", %s%s} in either order, any clock value' % (['-h', '-w', '', 'x', '-tab', '-oxx', '-s0', '-pq'][bd], KNAME[k], E2EVAL[k])) for bd in range(8) for k in range(18)] +
             [ob('harness_e2e_bare_%d' % k, bounds='whole parser, argv = {%s, -c} in either order, any clock value' % ['-r', '-s'][k]) for k in range(2)] +
             [ob('finding_exclude_dotted', expect='fail', bounds='argv {-xtG.a} against TEST(G, b) (open known finding KF-C12-1)')],
     }],
